@@ -198,7 +198,7 @@ pub fn object_heavy(base: &Config, salt: u64) -> Config {
     let mut rng = Rng::new(salt);
     let steps = 10 + rng.below(50) as usize;
     // recipes: operand set-ups followed by the typed opcode that consumes them
-    const RECIPES: [&[&str]; 68] = [
+    const RECIPES: [&[&str]; 75] = [
         // containers that hold a float (NaN with saturated entropy) and are then stored into themselves
         &["MARK", "BINFLOAT", "LIST", "DUP", "APPEND"],
         &["MARK", "FLOAT", "LIST", "DUP", "TUPLE1", "APPEND"],
@@ -279,6 +279,16 @@ pub fn object_heavy(base: &Config, salt: u64) -> Config {
         &["GLOBAL", "EMPTY_TUPLE", "REDUCE", "MARK", "UNICODE", "NONE", "NONE", "NONE", "INT", "NONE", "DICT", "BUILD"],
         &["EMPTY_SET", "MARK", "NONE", "BININT1", "SHORT_BINUNICODE", "BINFLOAT", "NEWTRUE", "ADDITEMS", "MARK", "NONE", "ADDITEMS", "MEMOIZE"],
         &["MARK", "NONE", "INT", "UNICODE", "FLOAT", "FROZENSET", "DUP", "TUPLE2", "MEMOIZE"],
+        // an alias of container X travels through the memo into an operand of an object (kwargs,
+        // args, state, OBJ group), and the object is then stored into X: every edge an object
+        // keeps must be one the cycle guard follows
+        &["EMPTY_LIST", "DUP", "TUPLE1", "MEMOIZE", "POP", "GLOBAL", "EMPTY_TUPLE", "EMPTY_DICT", "NONE", "BINGET", "SETITEM", "NEWOBJ_EX", "APPEND"],
+        &["EMPTY_LIST", "DUP", "TUPLE1", "BINPUT", "POP", "GLOBAL", "EMPTY_TUPLE", "EMPTY_DICT", "NONE", "BINGET", "SETITEM", "NEWOBJ_EX", "APPEND"],
+        &["EMPTY_DICT", "DUP", "TUPLE1", "BINPUT", "POP", "NONE", "GLOBAL", "EMPTY_TUPLE", "EMPTY_DICT", "NONE", "BINGET", "SETITEM", "NEWOBJ_EX", "SETITEM"],
+        &["EMPTY_LIST", "DUP", "TUPLE1", "BINPUT", "POP", "GLOBAL", "BINGET", "NEWOBJ", "APPEND"],
+        &["EMPTY_LIST", "DUP", "TUPLE1", "BINPUT", "POP", "GLOBAL", "BINGET", "REDUCE", "APPEND"],
+        &["EMPTY_LIST", "DUP", "TUPLE1", "BINPUT", "POP", "MARK", "GLOBAL", "BINGET", "OBJ", "APPEND"],
+        &["EMPTY_LIST", "DUP", "TUPLE1", "BINPUT", "POP", "GLOBAL", "EMPTY_TUPLE", "REDUCE", "BINGET", "BUILD", "APPEND"],
     ];
     let mut queue: Vec<u8> = Vec::new();
     // a third of the cases draw their arguments from saturated (all-0xFF) entropy: NaN floats, -1 ints
@@ -940,6 +950,53 @@ pub fn c11(thorough: bool, seed: u64) -> CheckOutput {
         if acc.get("cli_files_counted") < 500 {
             acc.inconclusive.push("too few CLI outputs counted".into());
         }
+        // the same knobs through the action wrapper's min_opcodes / max_opcodes inputs
+        let wfe = par_run(
+            grid.len() * 3,
+            Acc::new,
+            |i, acc| {
+                let (min, max) = grid_ref[i / 3];
+                let proto = ((i * 5 + i / 3) % 6) as u8;
+                // plain and zero-padded spellings of the same numbers
+                let spell = |v: usize| if i % 3 == 2 { format!("{:03}", v) } else { v.to_string() };
+                let inputs: Vec<(&str, String)> = vec![
+                    ("INPUT_PROTOCOL", proto.to_string()),
+                    ("INPUT_MIN_OPCODES", spell(min)),
+                    ("INPUT_MAX_OPCODES", spell(max)),
+                ];
+                match action_batch(&inputs, 8) {
+                    Err(m) => acc.inconclusive.push(format!("action wrapper run failed: {}", m)),
+                    Ok(files) => {
+                        for bytes in &files {
+                            acc.evaluations += 1;
+                            let Ok(l) = lex(bytes) else {
+                                acc.count("undecodable_outputs_not_judged_here", 1);
+                                continue;
+                            };
+                            acc.count("wrapper_files_counted", 1);
+                            let hi = max.max(min);
+                            let total = l.ins.len();
+                            if total < min + 1 || total > 3 * hi + 4 {
+                                let msg = format!(
+                                    "action wrapper with protocol={} min_opcodes={} max_opcodes={} wrote a pickle of {} opcodes, outside [{}..{}]",
+                                    proto, spell(min), spell(max), total, min + 1, 3 * hi + 4
+                                );
+                                acc.violate(Violation {
+                                    property: "C11".into(),
+                                    signature: format!("C11:wrapper_total:P{}", proto),
+                                    message: msg.clone(),
+                                    replay: json!({"kind": "c11-cli", "property": "C11", "protocol": proto, "min": min, "max": max, "frontend": "scripts/action-run.sh",
+                                        "message": msg, "output_hex": hex(&bytes[..bytes.len().min(4096)])}),
+                                });
+                                break;
+                            }
+                        }
+                    }
+                }
+            },
+            |a, b| a.merge(b),
+        );
+        acc.merge(wfe);
     }
     // hook-free part also on unsafe configurations (only the decoded-total bound applies there)
     if acc.get("cases_without_run_event") > 0 {
